@@ -163,6 +163,7 @@ fn run_step(boc: &Arc<BocData>, st: &Step, max_write: usize, hash_seed: u64) -> 
         app_console: false,
         app_legacy_date: false,
         net_faults: vec![],
+        server_today: None,
         fs_faults: FsFaultSpec::default(),
         knobs: Knobs { max_write, max_read: usize::MAX },
         hash_seed,
@@ -535,6 +536,7 @@ impl Engine for C14 {
                     app_console: false,
                     app_legacy_date: false,
                     net_faults: vec![],
+                    server_today: None,
                     fs_faults: FsFaultSpec::default(),
                     knobs: Knobs::default(),
                     hash_seed: sc.hash_seed ^ 7,
